@@ -49,6 +49,26 @@ def gen_cases(rng, tier):
         c["resp"]["assertions"][0]["decryptable"] = False
         c["tag"] += "/undecryptable"
         yield c
+    # the table with the signatures made by the SECOND signing key the issuer publishes (key roll-over)
+    for opts, rsig, asig, enc in itertools.product(OPTS, SIGS, SIGS, (False, True)):
+        if "valid" not in (rsig, asig) and "corrupted" not in (rsig, asig):
+            continue
+        c = cell(opts, rsig, asig, enc, "post")
+        c["resp"]["sig_key"] = "idp_sign2"
+        c["resp"]["assertions"][0]["sig_key"] = "idp_sign2"
+        c["tag"] += "/key2"
+        yield c
+    # the table for the forms a configuration may take: options as text, the dictionary loaded through the generic
+    # Config / IdPConfig classes instead of SPConfig
+    for opts, rsig, asig in itertools.product(OPTS, SIGS[:2], SIGS[:2]):
+        for extra in ({"form": "str"}, {"form": "Str"}, {"config_class": "Config"}, {"config_class": "IdPConfig"}):
+            c = cell(opts, rsig, asig, False, "post")
+            c["cfg"] = dict(c["cfg"], **extra)
+            c["tag"] += "/" + "+".join("%s=%s" % kv for kv in extra.items())
+            yield c
+    # the table through the second public entry point (only want_assertions_signed is a parameter there)
+    for opts, rsig, asig, enc in itertools.product(OPTS, SIGS, SIGS, (False, True)):
+        yield C.as_factory(cell(opts, rsig, asig, enc, "post"))
     # the same table on the attribute-query answer path (parse_attribute_query_response)
     for opts, rsig, asig, enc in itertools.product(OPTS, SIGS, SIGS, (False, True)):
         yield C.as_attr(cell(opts, rsig, asig, enc, "soap"), keep_authn=(rsig == asig))
